@@ -22,7 +22,7 @@
     * finding_C02_F2 — the unambiguous heap search as it is yields 10 of the 14 programs of a
       three-start grammar, and (C02_HS_fix_F2_witness) all 14 after the proposed fix;
     * finding_C02_F3 — heap search on a state-threading TTCFG never yields a member;
-    * finding_C02_HS_recursive — on a recursive grammar (`CFG.infinite`) heap search stops after 5
+    * finding_C02_HS_recursive (finding C03-F4) — on a recursive grammar (`CFG.infinite`) heap search stops after 5
       programs and never yields a member (`_reevaluate_` leaves the max-priority tables out of sync).
   NOT proved: completeness and termination (DESIGN B.2 induction on the rank), no-duplicates with a
   filter, and everything about the unambiguous-grammar machine (UHeapSearch); they are checked on
@@ -246,7 +246,8 @@ def rW2 : AList (NT Nat Unit) (AList Sym Rat) := [(rn 0, [(rb, 1/64), (rF, 63/64
 def rE2 : Env Nat Unit Rat := { G := rG2, W := rW2, ops := probOps 0, filter := fun _ => true }
 def rLost : Prog := .node rF [.node rg [.node rF [.node rc [], .node rc []]], .node rc []]
 
-/-- the language is infinite, heap search stops after 5 programs and never yields the member
+/-- (finding C03-F4, recorded under C03 whose statement covers recursive grammars)
+    the language is infinite, heap search stops after 5 programs and never yields the member
     `(F (g (F c c)) c)`: `_reevaluate_` leaves `max_priority[(S1, g)] = (g b)` although
     `max_priority[S3]` became `(F c c)` (the tables are out of sync on a recursive grammar), so the
     initial program `(g b)` of `S1` makes `__add_successors__` call `query(S3, b)` before `b` was
